@@ -170,6 +170,38 @@ def operator_family(rng):
     return ['scenario', ['debug', 1], ['start', 0], ['flags', n], ['locks', 0], ['tracked', 0], ['roots'] + roots]
 
 
+def mixed_operator_family(rng):
+    """`(a & b) & (c | d)`, `(c | d) | (a & b)`, `a | b | c & d`: an operand that is a connective of the *other* kind is one
+    operand, it is not spread.  The nested objects are only probed for their truth value while the flags walk (awaiting a
+    nested connective is known finding F8); the flat parts are awaited"""
+    conj = ['and', ['flag', 0], ['flag', 1]]
+    disj = ['or', ['flag', 2], ['flag', 3]]
+    how = rng.randrange(4)
+    if how == 0:
+        top = ['and', ['ref', 0], ['ref', 1]]            # All.__and__(Any)
+    elif how == 1:
+        top = ['or', ['ref', 1], ['ref', 0]]             # Any.__or__(All)
+    elif how == 2:
+        top = ['and', ['ref', 0], ['or', ['flag', 2], ['flag', 3]]]
+    else:
+        top = ['or', ['or', ['flag', 2], ['flag', 3]], ['and', ['flag', 0], ['flag', 1]]]   # a | b | c & d
+    setup = ['prog', ['defcond', 0, conj], ['defcond', 1, disj], ['defcond', 2, top],
+             ['logcond', ['ref', 0]], ['logcond', ['ref', 1]], ['logcond', ['ref', 2]]]
+    roots = [setup]
+    for i in range(rng.randint(0, 2)):
+        which = rng.choice([0, 1])
+        roots.append(['prog', ['sleep', rng.choice([F(1, 4), F(3, 4), F(3, 2)])], ['await', ['ref', which]], ['log', 100 + i], ['logcond', ['ref', 2]]])
+    walk = [['sleep', 1]]
+    for _ in range(rng.randint(4, 9)):
+        walk.append(['set', rng.randrange(4), rng.random() < 0.55])
+        walk.append(['sleep', rng.choice([1, 1, 0])])
+        walk += [['logcond', ['ref', 2]]]
+    for i in range(4):
+        walk += [['set', i, True], ['sleep', 1], ['logcond', ['ref', 2]]]
+    roots.append(['prog'] + walk)
+    return ['scenario', ['debug', 1], ['start', 0], ['flags', 4], ['locks', 0], ['tracked', 0], ['roots'] + roots]
+
+
 #: known finding F8: a connective nested in a connective loses wake-ups
 F8_PROBE = ['scenario', ['debug', 1], ['start', 0], ['flags', 3], ['locks', 0],
             ['roots', ['prog', ['await', ['all', ['any', ['flag', 0], ['flag', 1]], ['flag', 2]]], ['log', 1]],
@@ -183,7 +215,8 @@ def nontrivial(impl):
     return sum(1 for e in impl['events'] if ':awaited:' in e or ':alg:' in e) >= 2
 
 
-SOURCES = [scopesuite.scope_tree, scopesuite.valid_scenario, cond_family, revert_family, flicker_family, operator_family, negative_clock]
+SOURCES = [scopesuite.scope_tree, scopesuite.valid_scenario, cond_family, revert_family, flicker_family, operator_family, negative_clock,
+           mixed_operator_family]
 
 
 def run(tier, seed, drv):
